@@ -129,7 +129,14 @@ func (x *vc09Ids) newEpoch(k uint64, path uint64) *Epoch {
 }
 func (x *vc09Ids) id(ep *Epoch) uint64 { x.mu.Lock(); defer x.mu.Unlock(); return x.ids[ep] }
 
-func vc09Path(p uint64) string { return fmt.Sprintf("/nonexistent/verif-c09/epoch-%d.yml", p) }
+// config file paths as --watch meets them: one directory per epoch with the same file name in each (even keys), and
+// flat names that are prefixes of one another, e.g. e1 / e11 (odd keys). Only the full path identifies an epoch.
+func vc09Path(p uint64) string {
+	if p%2 == 0 {
+		return fmt.Sprintf("/nonexistent/verif-c09/%d/config.yml", p)
+	}
+	return fmt.Sprintf("/nonexistent/verif-c09/e%d", p)
+}
 
 func vc09NewMulti(ids *vc09Ids, keys []uint64) *MultiEpoch {
 	m := NewMultiEpoch(&Options{})
